@@ -170,7 +170,37 @@ def _project(truth, pa, pb):
             files[FILES[k]] = "import os\n\nX = 1\n"
         elif st == 2:
             files[FILES[k]] = render(k, STALE())
+        elif st == 3:
+            files[FILES[k]] = "# licence header - no statement, no trailing newline"
+        elif st == 4:
+            files[FILES[k]] = "# licence header\n\n"
+        elif st == 5:
+            files[FILES[k]] = ""
+        elif st == 6:
+            files[FILES[k]] = "import os\n\nX = 1"  # statements, but no trailing newline
     return files
+
+
+SP_CELLS = [(t, pa, pb) for t in range(3) for pa in range(7) for pb in range(7)]
+
+
+def success_parses_idx(c):
+    c = realize(c)
+    return success_parses(*SP_CELLS[c])
+
+
+def success_parses(truth_i, pa, pb):
+    """no fault at all: whatever the targets looked like (missing, no definition, stale, comments only with / without a final newline,
+    empty, no final newline), a sync that reports success leaves every file parseable"""
+    truth_i, pa, pb = realize((truth_i, pa, pb))
+    with untraced():
+        truth = KINDS[truth_i]
+        fs = FS(_project(truth, pa, pb))
+        if _run(fs, truth) is not None:
+            return False
+        for f, text in fs.files.items():
+            ast.parse(text)  # SyntaxError = violation
+        return all(FILES[k] in fs.files for k in KINDS)
 
 
 def _run(fs, truth):
@@ -372,6 +402,11 @@ def fault_props(k, partial, active):
 
 def obligations(tier, seed):
     obs = []
+    obs.append(Ob(name="success_parses", params=[("c", "int")], pre=["0 <= c < %d" % len(SP_CELLS)],
+                  body="H.success_parses_idx(c)", witness=(SP_CELLS.index((1, 3, 0)),), kind="F",
+                  bounds="every truth kind x both targets in any of 7 pre-states (missing, definition absent, stale, comments only without / with a "
+                  "final newline, empty, statements without a final newline): a sync that succeeds leaves every file parseable and present",
+                  timeout=280, funcs=["doctrans.conformance.ground_truth", "doctrans.conformance._conform_filename", "doctrans.emit.file"]))
     N = len(SYNC_TABLE)
     chunks = 3
     for ch in range(chunks):
